@@ -552,6 +552,62 @@ def c13(ctx):
     ctx.cov["exhaustive"] = False
 
 
+# --------------------------------------------------------------------------- C17
+@check("C17")
+def c17(ctx):
+    drv = ctx.build()
+    replays = models.fam_skl(ctx)
+    total = dict(traces=0, events=0, accepted=0, nontrivial=0)
+    nrep, ndist = 0, 0
+    for bi, (b, lines) in enumerate(replays):
+        out = os.path.join(ctx.scratch, "skl-%d" % bi)
+        os.makedirs(out, exist_ok=True)
+        rf = os.path.join(out, "replays.ndjson")
+        open(rf, "w").write("\n".join(lines) + "\n")
+        rc, o = ctx.drv(drv, ["skl", "-replays", rf, "-maxlevel", b[2], "-K", b[0], "-T", b[1], "-seed", ctx.seed + bi,
+                              "-n", 60 if ctx.quick else 600, "-ops", 60, "-out", out], timeout=2400)
+        if rc != 0:
+            hf = common.hard_failures(o)
+            if hf:
+                p = ctx.save_replay("c17-%s.txt" % hf[0][0], [hf[0][1]])
+                ctx.violation(p, "%s in pkg/skiplist: %s" % hf[0], match={"kind": hf[0][0]})
+                continue
+            raise Machinery("skl driver failed: " + o[-1500:])
+        summ = json.load(open(os.path.join(out, "summary.json")))
+        nrep += summ["replays"]
+        ndist += summ["distinct_structures"]
+        for mm in summ["mismatches"]:
+            p = ctx.save_replay("c17-replay-%d-%d.json" % (bi, len(ctx.violations)), mm)
+            ctx.violation(p, "the real skiplist deviates from Skiplist.tla after the operation sequence %s (alphabet %s): %s"
+                          % (json.dumps(mm["replay"]["path"]), mm["alphabet"], mm["mismatch"]), match={"kind": "replay"})
+        for sm in summ.get("samples", [])[:2]:
+            ctx.sample(dict(tlc_transition_replayed=sm))
+        # random long sequences judged by TLC against the sorted-map contract
+        tp = os.path.join(out, "traces.ndjson")
+        cfg = open(os.path.join(tlc.SPECS, "TraceSortedMap.cfg")).read()
+        acc, rej = ctx.validate_batch(tp, summ, validator=lambda pth, to: tlc.validate_trace("TraceSortedMap", cfg, pth, timeout=to))
+        total["traces"] += summ["traces"]
+        total["events"] += summ["events"]
+        total["accepted"] += acc
+        total["nontrivial"] += summ["traces"]
+        for rj in rej:
+            i = rj["index"]
+            lines2 = ctx.trace_lines(tp, summ, i)
+            rp = ctx.save_replay("c17-%s.smtrace.ndjson" % summ["metas"][i]["id"], lines2)
+            ctx.violation(rp, "the sorted-map contract rejects the recorded skiplist run %s at event %d: %s" % (
+                json.dumps(summ["metas"][i]), rj["rel"], json.dumps(rj["event"])), match={"kind": "trace"})
+    total["traces"] += nrep
+    total["accepted"] += nrep - sum(1 for v in ctx.violations if "deviates from Skiplist.tla" in v[1])
+    total["nontrivial"] += ndist
+    total["tlc_transitions_replayed"] = nrep
+    total["distinct_structures"] = ndist
+    std_cov(ctx, total, "every transition TLC generates for Skiplist.tla (all operation sequences up to the bound, all "
+                        "tower heights) is replayed on the real skiplist with scripted heights, on two key alphabets, "
+                        "comparing the towers level by level and Get/LowerBound/Scan/All for every probe; plus random "
+                        "sequences (maxLevel 1..12, p 0.01..0.99) validated by TLC against TraceSortedMap.tla; "
+                        "distinct = distinct tower structures reached + random sequences")
+
+
 # --------------------------------------------------------------------------- replay
 def replay(ctx, path):
     """Re-judges a saved replay file."""
@@ -565,6 +621,15 @@ def replay(ctx, path):
             print("  rejected at event %d: %s" % (rej[0]["rel"], json.dumps(rej[0]["event"])))
             return 1
         print("replay accepted (%d events)" % n)
+        return 0
+    if path.endswith(".smtrace.ndjson"):
+        cfg = open(os.path.join(tlc.SPECS, "TraceSortedMap.cfg")).read()
+        r = tlc.validate_trace("TraceSortedMap", cfg, path)
+        if not r["accepted"]:
+            print("VIOLATION property=%s replay=%s" % (ctx.id, path))
+            print("  rejected at event %d" % r["highwater"])
+            return 1
+        print("replay accepted")
         return 0
     if path.endswith(".wmtrace.ndjson"):
         meta = json.load(open(path.replace(".wmtrace.ndjson", ".meta.json")))
